@@ -281,7 +281,7 @@ Theorem popleft_min s o s' :
   PInv s -> pos_popleft H s = Some (o, s') ->
   exists e, In e (arr (pq_ s)) /\ eobj e = o /\
     (forall x, In x (arr (pq_ s)) -> entry_lt (plt H) x e = false) /\
-    (forall x, In x (arr (pq_ s)) -> x <> e -> entry_lt (plt H) e x = true) /\
+    (forall x, In x (arr (pq_ s)) -> x = e \/ entry_lt (plt H) e x = true) /\
     Permutation (arr (pq_ s)) (e :: arr (pq_ s')) /\ PInv s'.
 Proof.
   intros Hp E. pose proof (popleft_plist s Hp) as Hl.
@@ -296,7 +296,7 @@ Proof.
   split; [|split; [|split]]; auto.
   - intros x Hx. destruct (Hin x Hx) as [->|Hx']; [apply (elt_irrefl SW)|].
     apply (elt_asym SW). auto.
-  - intros x Hx Hne. destruct (Hin x Hx) as [->|Hx']; [congruence | auto].
+  - intros x Hx. destruct (Hin x Hx) as [->|Hx']; auto.
   - eapply perm_trans; [apply Permutation_sym, Hperm|]. apply perm_skip.
     rewrite <- Ht. apply plist_perm.
 Qed.
